@@ -5,11 +5,18 @@ import json
 import sys
 
 pid, wt, n = sys.argv[1], sys.argv[2], int(sys.argv[3]) if len(sys.argv) > 3 else 2
+round2 = len(sys.argv) > 4 and sys.argv[4] == "round2"
 for l in open("/verif/properties.jsonl"):
     p = json.loads(l)
     if p["id"] == pid:
         break
 mech = "\n".join(f"  - {m.get('name')} @ {m.get('where')}" for m in p["anchors"]["mechanism"])
+extra = (" Other people have already produced the most obvious single-line changes for this property (dropped termination masks, "
+         "off-by-one counters, swapped arguments, wrong clip, stale observation after reset). To be useful yours must be of a "
+         "different flavour: prefer the less obvious files / functions among the relevant ones, changes made of two cooperating sites "
+         "that each look fine alone, changes that only matter for a boundary hyper-parameter value or an unusual but documented "
+         "calling pattern (continuing a run with global_step > 0, passing your own target networks / buffers / loggers, several "
+         "parallel environments, multi-task wrappers), and changes whose effect is delayed by several steps." if round2 else "")
 print(f"""You are given a git worktree of the Python repository mlaux1/rl-blox (a JAX/Flax toolbox of reinforcement-learning algorithms) at {wt}. Work ONLY inside {wt} (never touch /repo, never look at /verif). The package is installed in editable mode from another directory, so ALWAYS run python as `cd {wt} && PYTHONPATH={wt} JAX_PLATFORMS=cpu /venv/bin/python ...` and confirm once that `import rl_blox; print(rl_blox.__file__)` points into {wt}.
 
 Here is a semantic property that the library is supposed to satisfy:
@@ -21,7 +28,7 @@ Relevant files: {', '.join(p['anchors']['files'])}
 Mechanisms meant to make it hold:
 {mech}
 
-Your task: produce {n} DIFFERENT, realistic source changes to rl_blox (each a small edit, the kind of mistake a maintainer could plausibly make in a refactoring or 'optimisation') that each BREAK this property while the package still imports and the existing test suite still passes. The changes must need something specific to manifest — a particular multi-step sequence of operations, an unusual but legal input (a shape, a boundary value, wrap-around, an episode ending at a particular moment, a particular hyper-parameter combination), or two cooperating sites that each look fine alone — NOT something ordinary use would expose at once, and not a crash on every call. Each change should break a different clause / mechanism of the property. Do not add comments that reveal the change. NEVER use `git stash` (the stash is shared between worktrees of other people working in parallel): to get back to a clean tree use `git diff > x.diff; git checkout -- .` and `git apply x.diff`.
+Your task: produce {n} DIFFERENT, realistic source changes to rl_blox (each a small edit, the kind of mistake a maintainer could plausibly make in a refactoring or 'optimisation') that each BREAK this property while the package still imports and the existing test suite still passes. The changes must need something specific to manifest — a particular multi-step sequence of operations, an unusual but legal input (a shape, a boundary value, wrap-around, an episode ending at a particular moment, a particular hyper-parameter combination), or two cooperating sites that each look fine alone — NOT something ordinary use would expose at once, and not a crash on every call. Each change should break a different clause / mechanism of the property.{extra} Do not add comments that reveal the change. NEVER use `git stash` (the stash is shared between worktrees of other people working in parallel): to get back to a clean tree use `git diff > x.diff; git checkout -- .` and `git apply x.diff`.
 
 For each change k = 1..{n}:
  1. Make the edit in the worktree (start each change from a clean tree: `git -C {wt} checkout -- .`).
